@@ -84,9 +84,37 @@ def one_case(run, specs, eri=False):
     return ok
 
 
+def many_charges_case(run, ncharge=220):
+    """many positive point charges in one call for two nearly coincident contracted f shells (6 primitives) and an s shell: every
+    slice must be negative semi-definite to 1e-9 of its largest eigenvalue, and equal to the single-charge result"""
+    from gbasis.integrals.point_charge import point_charge_integral
+    rng = run.rng
+    exps = sorted([core.rand_exp(rng, 0.3, 8.0) for _ in range(6)], reverse=True)
+    co = [[core.rand_coeff(rng)] for _ in range(6)]
+    c = [core.snap(rng.uniform(-0.5, 0.5), 8) for _ in range(3)]
+    specs = [ShellSpec(3, c, exps, co), ShellSpec(3, [c[0] + 1e-4, c[1] - 1e-4, c[2] + 2e-4], exps, co),
+             ShellSpec(0, [c[0] + 0.8, c[1], c[2] - 0.5], [0.7], [[1.0]])]
+    basis = make_basis(specs)
+    pos = np.array([[core.snap(rng.uniform(-4, 4), 10) for _ in range(3)] for _ in range(ncharge)])
+    q = np.array([core.snap(rng.uniform(0.5, 2.0), 8) for _ in range(ncharge)])
+    V = point_charge_integral(basis, pos, q)
+    rep = {"case": "many-charges", "basis": core.describe_basis(specs), "signature": {"kind": "gram-many-charges"}}
+    run.case(("many-charges", ncharge) + sig(specs))
+    run.count("point-charge matrices of %d positive charges computed in one call" % ncharge)
+    for k in range(ncharge):
+        m = V[:, :, k]
+        ev = np.linalg.eigvalsh(-(m + m.T) / 2)
+        if not np.all(np.isfinite(m)) or ev.min() < -1e-9 * max(abs(ev.max()), 1e-300):
+            run.violation(f"point-charge matrix of positive charge {k} (of {ncharge} computed in one call) is not negative semi-definite: "
+                          f"eigenvalue {-ev.min()!r} against largest magnitude {ev.max()!r}", rep)
+            return False
+    return True
+
+
 def check(run):
     rng = run.rng
     quick = run.tier == "quick"
+    many_charges_case(run)
     for k in range(8 if quick else 60):
         n = 1 + k % 5
         one_case(run, gen(rng, n, 3, 0.05, 50.0, dependent=(k % 3 == 0), spread=[0.0, 0.5, 3.0, 6.0][k % 4]))
@@ -129,5 +157,8 @@ def check(run):
 
 def replay(run, rep):
     n0 = len(run.violations)
+    if rep.get("case") == "many-charges":
+        many_charges_case(run)
+        return len(run.violations) == n0
     one_case(run, specs_from(rep), rep.get("eri", False))
     return len(run.violations) == n0
